@@ -208,6 +208,33 @@ def main():
         return 'third parameter equals START word 1'
     case('Render_Val', [o], m_r, 'shows-another-argument')
 
+    # ---- Sessions_Val
+    from . import sessions
+    from .c13 import gen_dump as gd, gen_cfg as gc
+    sobs = []
+    for i in range(12):
+        w, d1 = gd(rnd)
+        o, _, _g = sessions.run_session(rnd, w, [d1], sessions.KINDS_ALL, gc)
+        o['id'] = 'ss%d' % i
+        sobs.append(o)
+
+    def m_ses(b):
+        for o in b:
+            for a in o['acts']:
+                if a['op'] == 'adv' and a['found'] and 'k' in a['item']:
+                    a['item']['k'] += 1
+                    return 'one next() of a listing returned the following event'
+    case('Sessions_Val', sobs, m_ses, 'wrong-', sessions.VAL_CONSTS)
+
+    def m_ses2(b):
+        for o in b:
+            for a in o['acts']:
+                if a['op'] == 'adv' and not a['found']:
+                    a['found'] = True
+                    a['item'] = {'k': 1, 'first': 1, 'name': '-', 'start': 1, 'frames': [], 'proc': {'shown': False}}
+                    return 'a listing went on after its end'
+    case('Sessions_Val', sobs, m_ses2, 'listing-has-extra-item', sessions.VAL_CONSTS)
+
     shutil.rmtree(work, ignore_errors=True)
     for m, what, got in done:
         print('selftest %-16s corruption: %-55s -> rejected %s' % (m, what, got))
